@@ -425,9 +425,12 @@ def _eval_case(ctx, cfg, seed, tpos, dim, q, k, v, mask, prep=None, extra=False,
             return
     else:
         got = base.tolist()
+        # a float32 sum of T weights is only good to about T * 2^-24: on the long-sequence instances the bound is widened
+        # accordingly (a constant coordinate 1.0 over 2600 positions comes out as 0.99998)
+        tolT = max(TOL, 1.2e-7 * T)
         for oidx, (lo, hi) in prep["bounds"].items():
             x = O.bget(got, out_shape, oidx)
-            if not (lo - TOL * (1 + abs(lo)) <= x <= hi + TOL * (1 + abs(hi))):
+            if not (lo - tolT * (1 + abs(lo)) <= x <= hi + tolT * (1 + abs(hi))):
                 ctx.violation(sig(mask, symptom="outside-kept-value-range", constant_coordinate=lo == hi),
                               case(), {"index": oidx, "min": lo, "max": hi, "observed": x})
                 return
